@@ -83,7 +83,7 @@ Ev == Rec[ln]
 T(prop, what) == {<<ln, prop, what, mon.name>>}
 
 PropOfDev(d) == CASE d = "S12" -> "C05" [] d = "S13" -> "C13" [] d = "S14" -> "C14" [] d = "S15" -> "C05"
-                  [] d = "S18" -> "C14" [] OTHER -> "C18"
+                  [] d = "S18" -> "C14" [] d = "S19" -> "C13" [] OTHER -> "C18"
 
 Mon0 == [name |-> "-", cfg |-> [max_retry |-> 3, auto_retry |-> 2, max_interval |-> 1],
          devs |-> {}, flagged |-> {},
